@@ -9,7 +9,10 @@ RULE = (
     "shapes up to 60 nodes incl. depth >= 6; distinct = hash of (family, shape, start); trivial = single-node subtree"
 )
 ASSUMPTIONS = ["depth <= 150 for the two recursive iterators (pre-order, post-order); the three level-order iterators are also driven through a 1 300-level chain"]
-GATES = ["mon.C05.sequence", "C05.depth_ge_4", "C05.cousins_at_different_positions", "C05.protocol", "C05.after_mutation", "C05.deep_spine_with_bush", "C05.streamed_groups", "C05.deeper_than_recursion_limit"]
+GATES = ["mon.C05.sequence", "C05.depth_ge_4", "C05.cousins_at_different_positions", "C05.protocol", "C05.after_mutation", "C05.deep_spine_with_bush", "C05.streamed_groups", "C05.deeper_than_recursion_limit", "C05.non_restrictive_maxlevel"]
+
+
+_DONE = object()
 
 
 def plan(tier, seed, jobs):
@@ -48,6 +51,13 @@ def check_tree(ctx, nodes, par, ch, case, starts=None):
                 ctx.count("C05.info.iter_returns_other_object")  # not part of the statement: recorded, not judged
             got = list(it)
             ctx.count("C05.protocol")
+            if hasattr(it, "__next__"):
+                # the same iterator object driven further with next(): "exactly once and nothing else"
+                again = next(it, _DONE)
+                if again is not _DONE:
+                    ctx.violation("C05/exactly-once/%s-yields-after-exhaustion" % nm, "exactly-once", dict(case, start=s), expected="StopIteration again", observed=repr(again)[:80])
+                    ok = False
+                    continue
             if list(it) != []:
                 ctx.count("C05.info.reiterable")  # not part of the statement: recorded, not judged
             if nm in ("group", "zigzag"):
@@ -63,6 +73,16 @@ def check_tree(ctx, nodes, par, ch, case, starts=None):
                 ctx.violation("C05/order/%s" % nm, "reference-order", dict(case, start=s), expected=exp[nm], observed=obs)
                 ok = False
                 continue
+            if len(exp["pre"]) <= 12:
+                # a limit that does not limit: exactly the number of levels, one more, a huge number
+                for ml in (len(exp["group"]), len(exp["group"]) + 1, 10 ** 9):
+                    ctx.count("C05.non_restrictive_maxlevel")
+                    g2 = list(itcls(nodes[s], maxlevel=ml))
+                    o2 = [[idmap.get(id(x), "?") for x in g] for g in g2] if nm in ("group", "zigzag") else [idmap.get(id(x), "?") for x in g2]
+                    if o2 != obs:
+                        ctx.violation("C05/order/%s-non-restrictive-maxlevel" % nm, "reference-order", dict(case, start=s, maxlevel=ml), expected=obs, observed=o2)
+                        ok = False
+                        break
             if nm in ("group", "zigzag") and len(obs) >= 3:
                 # streaming consumption: every group is dropped before the next one is requested
                 ctx.count("C05.streamed_groups")
